@@ -17,7 +17,7 @@ import numpy as np
 
 from ..sim import gen_sched, HarnessError
 from ..util import A, L, Result, sig6, rel_diff, random_composition
-from .common import SimRec, gen_simplex, trim
+from .common import SimRec, gen_simplex, trim, tail
 
 ID = "C17"
 CHUNK = 40
@@ -72,8 +72,8 @@ def _rand_floor(rng, rs, c, d, scale2):
 
 
 def gen_case(rng, tier):
-    c = rng.randint(1, 4)
-    d = rng.randint(1, 4)
+    c = tail(rng, 1, 4, [9, 17, 33, 65], 0.04)
+    d = tail(rng, 1, 4, [9, 17, 33], 0.04)
     rs = np.random.RandomState(rng.getrandbits(32))
     scale = 10.0 ** rng.uniform(-1, 1)
     scale2 = scale * scale
@@ -93,7 +93,7 @@ def gen_case(rng, tier):
         elif name == "set_floor":
             ops.append({"op": name, "v": _rand_floor(rng, rs, c, d, scale2)})
         elif name == "em_step":
-            n = rng.randint(max(2, c), 12)
+            n = rng.randint(max(2, min(c, 10)), 12)
             X = sig6(means[rs.randint(0, c, size=n)] + rs.randn(n, d) * scale * 1.2)
             o = {"op": name, "X": L(X), "um": rng.random() < 0.7, "uv": rng.random() < 0.6,
                  "uw": rng.random() < 0.6, "backend": rng.choice(["np", "np", "da"])}
@@ -128,7 +128,7 @@ def gen_case(rng, tier):
             ops.append({"op": name, "eps": rng.choice([1e-9, 1e-7, 1e-6, 5e-6, 1e-4]),
                         "times": rng.randint(1, 10)})
         elif name == "em_many":
-            n = rng.randint(max(4, 2 * c), 20)
+            n = rng.randint(max(4, min(2 * c, 16)), 20)
             X = sig6(means[rs.randint(0, c, size=n)] + rs.randn(n, d) * scale * 1.2)
             ops.append({"op": name, "X": L(X), "steps": rng.randint(15, 60),
                         "uw": rng.random() < 0.5})
@@ -136,7 +136,7 @@ def gen_case(rng, tier):
             ops.append({"op": name, "by": rng.choice(["path", "file"])})
         elif name == "hdf5_load":
             ops.append({"op": name, "by": rng.choice(["path", "file"]),
-                        "other_c": rng.randint(1, 4), "other_d": rng.randint(1, 4)})
+                        "other_c": tail(rng, 1, 4, [9, 17], 0.05), "other_d": rng.randint(1, 4)})
         else:
             ops.append({"op": name})
     return {
